@@ -58,6 +58,11 @@ let run (toks : string list) : string =
     let readers = L.map (fun m -> let d = unhex m in if d = [] then [] else [d]) msgs in
     let (wires, _) = Framing.send_all (session role sh) readers in
     String.concat " " (L.mapi (fun i w -> Printf.sprintf "w%d=%s" i (hx w)) wires)
+  | "sealf" :: shared :: role :: chunks ->
+    (* a peer that frames by itself: one frame per given chunk (empty chunks included), counters from 0 *)
+    let s = session role (unhex shared) in
+    let cs = L.map (fun m -> if m = "-" then [] else unhex m) chunks in
+    "w0=" ^ hx (Framing.spec_wire_from Framing.cc_seal s.Framing.enc_key N0 O cs)
   | "sealc" :: shared :: role :: ctr :: msgs ->
     let sh = unhex shared in
     let c = L.fold_left (fun acc ch -> BinNat.N.add (BinNat.N.mul acc (n_of_int 10)) (n_of_int (Char.code ch - 48))) N0 (L.init (String.length ctr) (String.get ctr)) in
